@@ -23,8 +23,25 @@ func VerifH_C11_goaway() {
 	calls := []*vCall{cl.request("GET", "/1", nil), cl.request("GET", "/3", nil), cl.request("GET", "/5", nil)}
 	cl.sent()
 	last := uint32(1 + 2*vRange(0, 2))
+	if vBool() {
+		// graceful shutdown (RFC 7540 6.8): a first GOAWAY with 2^31-1 as a
+		// warning, then the one with the real last-stream-id
+		cl.feed(vFrame(0x7, 0x0, 0, []byte{0x7f, 0xff, 0xff, 0xff, 0, 0, 0, 0}))
+		vAssert(!cl.c.CanOpenStream(), "C11.goaway.no-new-streams-after-the-warning")
+	}
 	cl.feed(vFrame(0x7, 0x0, 0, []byte{byte(last >> 24), byte(last >> 16), byte(last >> 8), byte(last), 0, 0, 0, 0}))
 	vAssert(!cl.c.CanOpenStream(), "C11.goaway.no-new-streams")
+	// the requests the server disclaims end promptly, not when the connection does
+	for i, k := range calls {
+		if uint32(1+2*i) > last {
+			select {
+			case err := <-k.ctx.Err:
+				k.ctx.Err <- err // leave it for the checks below
+			default:
+				vAssert(false, "C11.goaway.disclaimed-request-ends-promptly")
+			}
+		}
+	}
 	// the streams above last-stream-id are over as far as the server is concerned
 	desc := vBool()
 	var order []uint32
